@@ -4,6 +4,7 @@ CONSTANTS
   MaxLen <- MC_MaxLen
   Routes <- MC_Routes
   Attrs <- MC_Attrs
+  Methods <- MC_Methods
 INVARIANT HistoryFree
 INVARIANT Siblings
 INVARIANT ImplRefines
